@@ -109,8 +109,14 @@ def run(shard, tier, seed):
     def prop(rnd, cfg, nb, saturate):
         res.count("histories")
         pre = "s%dh%d_%d_" % (shard["i"], res.counters["histories"], seed)
-        case = chainexec.gen_case(rnd, cfg, nb, 0.0, ["C01"], prefix=pre, p_tx=0.85, zero_rewards=True, p_unusual=0.35,
-                                  dts=[1_000_000, 1_000_000, 10_000] if saturate else None)
+        long_ = shard["i"] == 15 and res.counters["histories"] % 2 == 1
+        if long_:
+            # a long history with blocks that arrive on parents 30 and more below the head: a stale block is judged like any other
+            case = chainexec.gen_case(rnd, cfg, 38 + nb, 0.0, ["C01"], prefix=pre, p_tx=0.5, p_fork=0.1, p_deep_fork=0.3, deep_min=30)
+            res.count("histories_with_blocks_30_below_the_head")
+        else:
+            case = chainexec.gen_case(rnd, cfg, nb, 0.0, ["C01"], prefix=pre, p_tx=0.85, zero_rewards=True, p_unusual=0.35,
+                                      dts=[1_000_000, 1_000_000, 10_000] if saturate else None)
         r = chainexec.Run(case, ("C06",))
         r.execute()
         if r.degenerate():
@@ -120,6 +126,17 @@ def run(shard, tier, seed):
         cands = [o for o in case["ops"] if o["label"] in r.world.blocks]
         cands.sort(key=lambda o: (-len(r.world.blocks[o["label"]].txs), -int.from_bytes(r.world.blocks[o["label"]].target, "big")))
         picked = cands[:1] + rnd.sample(cands[1:], min(len(cands) - 1, per_hist - 1))
+        if long_:
+            hs, best, deep = {"g": 0}, 0, []
+            for o in case["ops"]:
+                if "label" not in o or o.get("parent") not in hs:
+                    continue
+                hs[o["label"]] = hs[o["parent"]] + 1
+                if best - hs[o["parent"]] >= 30 and o in cands:
+                    deep.append(o)
+                best = max(best, hs[o["label"]])
+            picked = [o for o in deep if o not in picked][:3] + picked[:1]
+            res.count("blocks_tampered_30_below_the_head", len(picked) - 1)
         # a block that consists of a reward without outputs ends in a zero length octet: always included when there is one
         bare = [o for o in cands if len(r.world.blocks[o["label"]].txs) == 1 and not r.world.blocks[o["label"]].txs[0].outs and o not in picked]
         if bare:
